@@ -251,6 +251,29 @@ def all_apply_shapes(repo):
     return [s for _, s in out]
 
 
+DEBIASER_FILES = [("LinearScaling", "_linear_scaling.py"), ("DeltaChange", "_delta_change.py"), ("QuantileMapping", "_quantile_mapping.py"),
+                  ("ScaledDistributionMapping", "_scaled_distribution_mapping.py"), ("CDFt", "_cdft.py"), ("ECDFM", "_ecdfm.py"),
+                  ("QuantileDeltaMapping", "_quantile_delta_mapping.py"), ("ISIMIP", "_isimip.py")]
+BASE_FILES = {"Debiaser": "_debiaser.py", "RunningWindowDebiaser": "_running_window_debiaser.py"}
+
+
+def method_owners(repo, method):
+    """for each of the eight debiasers: the first class along its (single-inheritance) base chain that defines `method`"""
+    out = []
+    for cls, file in DEBIASER_FILES:
+        name, f = cls, file
+        while True:
+            c = find_class(ast.parse(open(os.path.join(repo, "ibicus", "debias", f)).read()), name)
+            if find_method(c, method) is not None:
+                out.append((cls, name))
+                break
+            nxt = next((b.id for b in c.bases if isinstance(b, ast.Name) and b.id in BASE_FILES), None)
+            if nxt is None:
+                raise Unrecognised(f"{cls}: no class in its base chain defines {method}")
+            name, f = nxt, BASE_FILES[nxt]
+    return out
+
+
 # ------------------------------------------------------------------ time-check sites
 def first_index(stmts, pred):
     for k, st in enumerate(stmts):
@@ -473,6 +496,15 @@ def generate(repo):
         sites = []
     out.append("/-- where time-array lengths are checked -/")
     out.append("def timeSites : List TimeSite := [\n" + ",\n".join("  " + s for s in sites) + "]")
+    out.append("")
+
+    try:
+        owners = method_owners(repo, "apply_location")
+    except (Unrecognised, OSError, SyntaxError) as ex:
+        errors.append(f"untranslatable:apply_location owners: {ex}")
+        owners = []
+    out.append("/-- per debiaser: the class (own or inherited) whose `apply_location` it runs -/")
+    out.append("def applyLocationOwner : List (String × String) := [\n" + ",\n".join(f"  ({lstr(c)}, {lstr(o)})" for c, o in owners) + "]")
     out.append("")
 
     try:
